@@ -15,3 +15,4 @@ for v in ctx.violations:
     k=(v['kind'], v['what'].split(':')[0][:60]); c[k]+=v['count']; ex.setdefault(k,v)
 for k,n in c.most_common(): print(n,k,'\n    ',ex[k]['what'][:400])
 print('known hits',ctx.known_hits,'corr',ctx.corr,'evals',ctx.evaluations,'wall',ctx.t.s())
+print('nontrivial', len(ctx.nontrivial), 'dist', dict(ctx.dist), 'controls', ctx.controls)
